@@ -3357,7 +3357,10 @@ class SetInstance(object):
                 select_list, attr_offsets = rentity._construct_select_clause_()
             else:
                 table_name = attr.table
-                select_list = [ 'ALL' ] + [ [ 'COLUMN', None, column ] for column in attr.columns ]
+                # for a symmetric attribute reverse.columns is attr.columns: select the opposite columns,
+                # otherwise the object itself would be fetched as an item of its own collection
+                item_columns = attr.reverse_columns if attr.symmetric else attr.columns
+                select_list = [ 'ALL' ] + [ [ 'COLUMN', None, column ] for column in item_columns ]
                 attr_offsets = None
             sql_ast = [ 'SELECT', select_list, [ 'FROM', [ None, 'TABLE', table_name ] ],
                         where_list, [ 'LIMIT', 1 ] ]
